@@ -226,6 +226,35 @@ def run(prog: Program, res: Result) -> None:
                 res.fail("C05.R3", file=ci.file, line=ci.node.lineno, qualname=ci.name, construct=f"_keys member {k!r}", message=f"key {k!r} exposed through getattr(self, key) is private or not defined by {ci.name}", what=what)
     res.floor("C05.R3", "drop key-set members", n_keys, 15)
 
+    # ------------------------------------------------------------------ R4 data values are never called
+    res.rule("C05.R4", "a value that can hold a context object is never called: no `v(...)`, `v[k](...)` on data-plane variables (calling is not part of the item/length/iteration/conversion protocol)")
+    n_calls = 0
+    n_data_fns = 0
+    for fid in sorted(dp):
+        fi, kind = dp[fid]
+        data_vars = _data_vars(fi, not kind.startswith("AST method"))
+        if not data_vars:
+            continue
+        n_data_fns += 1
+        for c in ast.walk(fi.node):
+            if not isinstance(c, ast.Call):
+                continue
+            n_calls += 1
+            f = c.func
+            called = None
+            if isinstance(f, ast.Name) and f.id in data_vars:
+                called = f.id
+            elif isinstance(f, ast.Subscript) and _is_data_expr(f.value, data_vars):
+                called = norm(f)
+            elif isinstance(f, ast.Call) and _is_data_expr(f, data_vars):
+                called = norm(f)
+            if called is None:
+                continue
+            site = f"{fi.file}:{c.lineno} {fi.qualname}"
+            res.fail("C05.R4", file=fi.file, line=c.lineno, qualname=fi.qualname, construct=f"call of {called}", message=f"`{norm(c)[:60]}` calls a value that can hold a context object: a template path or filter argument invokes Python code (a bound method, a class, any callable) of a user object", what=f"{site}: data value `{called}` is not called")
+    res.floor("C05.R4", "calls examined in data-plane functions", n_calls, 600)
+    res.ok("C05.R4", "liquid2 data plane", f"{n_calls} calls in {n_data_fns} functions with data variables", "none of them calls a data-plane value")
+
 
 def _literal_strings(e: ast.expr | None) -> set[str] | None:
     if e is None:
@@ -304,6 +333,8 @@ def _data_vars(fi: FunctionInfo, params_are_data: bool) -> set[str]:
             if p.arg in CONTROL_PARAMS:
                 continue
             ann = norm(p.annotation) if p.annotation is not None else ""
+            if ann.startswith(("Callable[", "typing.Callable[")):
+                continue  # a function object supplied by Python code (decorator argument), not a context value
             if any(t in ann for t in ("RenderContext", "Environment", "TokenT", "TokenStream", "Translations", "Expression", "Filter", "Callable", "Node")) and "object" not in ann and "Any" not in ann:
                 continue
             data.add(p.arg)
